@@ -210,6 +210,24 @@ def evaluate(ctx, cases):
             maxa = int(ws[-2][2:])
             emitted = [w for w in ws[:-2] if w[0] in "RSMOXA"]
             amap = dict(tuple(int(t) for t in kv.split("=")) for kv in ws[-1][2:].split("/")) if ws[-1][2:] else {}
+            if c["ext"]:
+                # C02_externals_passed / C02_steps_externals: with the extension on, the external calls of each step are the atoms declared external in that
+                # step while no rule so far had defined them (order of declaration, repeated declarations repeated), image and LAST value of the step
+                heads, want_x = set(), []
+                for st in c["steps"]:
+                    regs, val = [], {}
+                    for s_ in st:
+                        if s_[0] in ("R", "S"): heads |= set(s_[2])
+                        elif s_[0] == "X" and s_[1] not in heads: regs.append(s_[1]); val[s_[1]] = s_[2]
+                    want_x.append(["X,%d,%d" % (amap.get(a, 0), val[a]) for a in regs])
+                got_x, cur = [], None
+                for w_ in ws[:-2]:
+                    if w_ == "B": cur = []
+                    elif w_ == "E" and cur is not None: got_x.append(cur); cur = None
+                    elif w_.startswith("X,") and cur is not None: cur.append(w_)
+                if got_x != want_x:
+                    ctx.fail("C02:externals-passed", "with the extension on, the external calls of a step are not its pending externals with image and last value", jc, {"want": want_x, "got": got_x})
+                else: ctx.dist["externals passed as declared"] += 1
             if not c["inc"]:
                 if len(set(amap.values())) != len(amap) or any(v < 2 or v > maxa for v in amap.values()):
                     ctx.fail("C02:atom-map", "the atom map is not injective into 2..maxAtom", jc, {"map": amap, "max": maxa})
